@@ -287,7 +287,11 @@ func runMarch(d desc) marchOutcome {
 					addPanicP = fmt.Sprint(r)
 				}
 			}()
-			parC.AddFieldParallel(f.field(d.NFun))
+			if d.Add2 {
+				parC.AddFieldParallel2(f.field(d.NFun))
+			} else {
+				parC.AddFieldParallel(f.field(d.NFun))
+			}
 		}()
 	}
 	sr, pr := readCanvas(seqC, d.maxNFun()), readCanvas(parC, d.maxNFun())
@@ -363,7 +367,11 @@ func marchCoq(d desc, sr, pr []chunkRow, o marchOutcome) string {
 func runMarchParOnly(d desc) marchOutcome {
 	parC := marching.NewMarchingCanvas(d.cpu())
 	for _, f := range d.Fields {
-		parC.AddFieldParallel(f.field(d.NFun))
+		if d.Add2 {
+			parC.AddFieldParallel2(f.field(d.NFun))
+		} else {
+			parC.AddFieldParallel(f.field(d.NFun))
+		}
 	}
 	var o marchOutcome
 	o.canvasEq = true
@@ -384,7 +392,8 @@ func runMarchParOnly(d desc) marchOutcome {
 type opDesc struct {
 	Op     string     `json:"op"` // "add" | "march"
 	Field  *fieldDesc `json:"field,omitempty"`
-	Par    bool       `json:"par,omitempty"` // add: AddFieldParallel on the canvas under test (else AddField)
+	Par    bool       `json:"par,omitempty"`  // add: AddFieldParallel on the canvas under test (else AddField)
+	Par2   bool       `json:"par2,omitempty"` // add: AddFieldParallel2 on the canvas under test
 	Cutoff float64    `json:"cutoff"`
 }
 
@@ -410,7 +419,9 @@ func runSequence(d desc) []marchOutcome {
 			added = append(added, f)
 			func() {
 				defer func() { recover() }()
-				if op.Par {
+				if op.Par2 {
+					test.AddFieldParallel2(f.field(d.NFun))
+				} else if op.Par {
 					test.AddFieldParallel(f.field(d.NFun))
 				} else {
 					test.AddField(f.field(d.NFun))
